@@ -50,13 +50,13 @@ def expr_family():
 
 
 def bounds(tier, seed):
-    return {"bases": projects.BASE_NAMES, "max_defects": 1 if tier == "quick" else 2, "options": list(OPTS),
+    return {"bases": projects.BASE_NAMES, "max_defects": 2 if tier == "quick" else 3, "options": list(OPTS),
             "expression_family": len(expr_family()), "expression_pairs": "every expression paired with 3 partners rotated by seed" if tier == "quick" else "all pairs of the 21 expressions with <= 1 operator + rotated partners",
             "sizes": [1, 8191, 8192, 8193, 100000]}
 
 
 def cases(tier, seed):
-    n = 1 if tier == "quick" else 2
+    n = 2 if tier == "quick" else 3
     for b in range(len(projects.BASES)):
         for ds in projects.defect_sets(n):
             for o in OPTS:
